@@ -3,21 +3,52 @@
 // A range is (lo, n): n bits starting at bit lo, LSB0.  `shift` moves every range up (index * stride for arrays).
 // The first range of the list supplies the least significant bits of the field value (C04).
 //
-// The adequacy of these loops against the per-bit mathematical definition is proved in Verus
-// (meta/adequacy.rs re-reads this very file, see DESIGN.md 4.4).  //@ comments are Verus anchors.
+// This very file is proved in Verus against the per-bit model of meta/prelude.rs on every META run: lines starting
+// with `//@` are Verus clauses (requires / ensures / invariant / decreases / proof blocks) that the META build uncomments;
+// `//@ret r` names the return value of the signature above it.  Nothing else is changed.  For rustc and Kani the `//@`
+// lines are comments.
 
 /// bits of `raw` selected by the ordered range list, first range least significant
-pub const fn get_spec(raw: u128, ranges: &[(usize, usize)], shift: usize) -> u128 {
+pub const fn get_spec(raw: u128, ranges: &[(usize, usize)], shift: usize) -> u128
+//@ret r
+//@    requires ranges_ok(ranges@, shift as int)
+//@    ensures forall|k: int| 0 <= k < 128 ==> bit(r, k) == get_model(raw, ranges@, shift as int, ranges@.len() as int, k)
+{
     let mut acc = 0u128;
-    let mut t = 0;
-    let mut i = 0;
-    while i < ranges.len() {
+    let mut t: usize = 0;
+    let mut i: usize = 0;
+    //@ proof { assert forall|k: int| 0 <= k < 128 implies bit(acc, k) == get_model(raw, ranges@, shift as int, 0, k) by { lemma_zero(k as u128); } }
+    while i < ranges.len()
+    //@    invariant
+    //@        i <= ranges@.len(), t == total(ranges@, i as int), ranges_ok(ranges@, shift as int),
+    //@        forall|k: int| 0 <= k < 128 ==> bit(acc, k) == get_model(raw, ranges@, shift as int, i as int, k),
+    //@    decreases ranges@.len() - i
+    {
         let (lo, n) = ranges[i];
-        let mut j = 0;
-        while j < n {
+        let mut j: usize = 0;
+        //@ proof { lemma_total_mono(ranges@, i as int + 1, ranges@.len() as int); lemma_total_mono(ranges@, i as int, i as int + 1); }
+        while j < n
+        //@    invariant
+        //@        j <= n, i < ranges@.len(), (lo, n) == ranges@[i as int], t == total(ranges@, i as int), t + n <= 128, lo + shift + n <= 128,
+        //@        forall|k: int| 0 <= k < 128 ==> bit(acc, k) == (if t <= k < t + j { bit(raw, lo + shift + k - t) } else { get_model(raw, ranges@, shift as int, i as int, k) }),
+        //@    decreases n - j
+        {
+            //@ let ghost old_acc = acc;
             if (raw >> (lo + shift + j)) & 1 == 1 {
                 acc |= 1u128 << (t + j);
             }
+            //@ proof {
+            //@     assert forall|k: int| 0 <= k < 128 implies bit(acc, k) == (if t <= k < t + j + 1 { bit(raw, lo + shift + k - t) } else { get_model(raw, ranges@, shift as int, i as int, k) }) by {
+            //@         lemma_orbit(old_acc, (t + j) as u128, k as u128);
+            //@         lemma_get_high(raw, ranges@, shift as int, i as int, (t + j) as int);
+            //@         let tst = (raw >> ((lo + shift + j) as u128)) & 1u128 == 1u128;
+            //@         assert(tst == bit(raw, lo + shift + j));
+            //@         assert(acc == if tst { old_acc | (1u128 << ((t + j) as u128)) } else { old_acc });
+            //@         assert(!bit(old_acc, (t + j) as int));
+            //@         if tst { assert(bit(acc, k) == (k == t + j || bit(old_acc, k))); } else { assert(bit(acc, k) == bit(old_acc, k)); }
+            //@         if k == t + j { assert(lo + shift + k - t == lo + shift + j); }
+            //@     }
+            //@ }
             j += 1;
         }
         t += n;
@@ -27,16 +58,42 @@ pub const fn get_spec(raw: u128, ranges: &[(usize, usize)], shift: usize) -> u12
 }
 
 /// `raw` with exactly the listed positions replaced by the corresponding bits of `v`; every other bit kept
-pub const fn put_spec(raw: u128, ranges: &[(usize, usize)], shift: usize, v: u128) -> u128 {
+pub const fn put_spec(raw: u128, ranges: &[(usize, usize)], shift: usize, v: u128) -> u128
+//@ret r
+//@    requires ranges_ok(ranges@, shift as int)
+//@    ensures forall|k: int| 0 <= k < 128 ==> bit(r, k) == put_model(raw, ranges@, shift as int, v, ranges@.len() as int, k)
+{
     let mut acc = raw;
-    let mut t = 0;
-    let mut i = 0;
-    while i < ranges.len() {
+    let mut t: usize = 0;
+    let mut i: usize = 0;
+    while i < ranges.len()
+    //@    invariant
+    //@        i <= ranges@.len(), t == total(ranges@, i as int), ranges_ok(ranges@, shift as int),
+    //@        forall|k: int| 0 <= k < 128 ==> bit(acc, k) == put_model(raw, ranges@, shift as int, v, i as int, k),
+    //@    decreases ranges@.len() - i
+    {
         let (lo, n) = ranges[i];
-        let mut j = 0;
-        while j < n {
+        let mut j: usize = 0;
+        //@ proof { lemma_total_mono(ranges@, i as int + 1, ranges@.len() as int); lemma_total_mono(ranges@, i as int, i as int + 1); }
+        while j < n
+        //@    invariant
+        //@        j <= n, i < ranges@.len(), (lo, n) == ranges@[i as int], t == total(ranges@, i as int), t + n <= 128, lo + shift + n <= 128,
+        //@        forall|k: int| 0 <= k < 128 ==> bit(acc, k) == (if lo + shift <= k < lo + shift + j { bit(v, t + k - lo - shift) } else { put_model(raw, ranges@, shift as int, v, i as int, k) }),
+        //@    decreases n - j
+        {
             let pos = lo + shift + j;
+            //@ let ghost old_acc = acc;
+            //@ let ghost vb = (v >> ((t + j) as u128)) & 1u128;
+            //@ proof { assert(vb <= 1) by (bit_vector) requires vb == (v >> ((t + j) as u128)) & 1u128; }
             acc = (acc & !(1u128 << pos)) | (((v >> (t + j)) & 1) << pos);
+            //@ proof {
+            //@     assert forall|k: int| 0 <= k < 128 implies bit(acc, k) == (if lo + shift <= k < lo + shift + j + 1 { bit(v, t + k - lo - shift) } else { put_model(raw, ranges@, shift as int, v, i as int, k) }) by {
+            //@         lemma_setbit(old_acc, pos as u128, vb, k as u128);
+            //@         assert(acc == (old_acc & !(1u128 << (pos as u128))) | (vb << (pos as u128)));
+            //@         assert(bit(acc, k) == (if k == pos { vb == 1u128 } else { bit(old_acc, k) }));
+            //@         if k == pos { assert(t + k - lo - shift == t + j); assert(bit(v, t + k - lo - shift) == (vb == 1u128)); }
+            //@     }
+            //@ }
             j += 1;
         }
         t += n;
@@ -46,6 +103,9 @@ pub const fn put_spec(raw: u128, ranges: &[(usize, usize)], shift: usize, v: u12
 }
 
 /// type invariant of an N-bit register held in a wider integer: no bit at or above n is set
-pub const fn fits(raw: u128, n: usize) -> bool {
+pub const fn fits(raw: u128, n: usize) -> bool
+//@ret r
+//@    ensures r == (n >= 128 || raw >> (n as u128) == 0)
+{
     n >= 128 || (raw >> n) == 0
 }
